@@ -3,7 +3,7 @@
      triple   a o1 b o2 c o3 d               all 13^3 operator triples, tree by precedence climbing
      form     x o1 y o2 z with one operand replaced by a literal, -1, (x), x.a, x[1], f(1), x.m(2), begin x end
      if       all if/then/else texts to depth 3 without parentheses, tree by "else binds to the nearest if"
-     chain    base followed by up to 3 postfix operators (.a, [1], .m(2)), optionally assigned to, tree by left nesting
+     chain    base followed by up to 4 postfix operators (.f, [i], .m(j), names by position), read, assigned to, or ended by an operator call .+(9); tree by left nesting
    Each behaviour is one text; the driver joins the tokens, the real parser parses, TraceParse compares. *)
 EXTENDS FMLSyntax, Json, IOUtils
 VARIABLES c
@@ -21,7 +21,7 @@ Triples == {<<"triple", o1, o2, o3>> : o1 \in OpSet, o2 \in OpSet, o3 \in OpSet}
 FormCases == {<<"form", o1, o2, f, p>> : o1 \in OpSet, o2 \in OpSet, f \in Forms, p \in {"1", "2", "3"}}
 IfCases == {<<"if">> \o x : x \in IfTexts(3)}
 Postfix == {"field", "index", "method"}
-Chains == UNION {{<<"chain", b, asg>> \o ps : ps \in [1..n -> Postfix]} : n \in 1..3, b \in {"var", "call", "paren", "block"}, asg \in {"read", "assign"}}
+Chains == UNION {{<<"chain", b, asg>> \o ps : ps \in [1..n -> Postfix]} : n \in 1..4, b \in {"var", "call", "paren", "block"}, asg \in {"read", "assign", "opcall"}}
 Cases == Triples \cup FormCases \cup IfCases \cup Chains
 
 Expected(x) ==
@@ -35,6 +35,7 @@ Expected(x) ==
                              tr == ChainTree(BaseTree(x[2]), ps)
                              tk == BaseToks(x[2]) \o ChainToks(ps) IN
                          IF x[3] = "read" THEN [ok |-> TRUE, toks |-> tk, tree |-> tr]
+                         ELSE IF x[3] = "opcall" THEN [ok |-> TRUE, toks |-> tk \o <<".", "+", "(", "9", ")">>, tree |-> MCallN(tr, "+", <<IntL(9)>>)]   \* operator called as a method at the end of the chain
                          ELSE \* assignment through the chain: only a field or an element can be assigned to
                               IF ps[Len(ps)] = "field" THEN [ok |-> TRUE, toks |-> tk \o <<"<-", "5">>, tree |-> [t |-> "SetField", o |-> tr.o, n |-> tr.n, e |-> IntL(5)]]
                               ELSE IF ps[Len(ps)] = "index" THEN [ok |-> TRUE, toks |-> tk \o <<"<-", "5">>, tree |-> [t |-> "SetIndex", o |-> tr.o, i |-> tr.i, e |-> IntL(5)]]
